@@ -267,7 +267,31 @@ func (p *Program) Explore(fn *ssa.Function, cfg Config) *Result {
 			}
 		}(k)
 	}
+	doneCh := make(chan struct{})
+	go func() {
+		tick := time.NewTicker(10 * time.Second)
+		defer tick.Stop()
+		for {
+			select {
+			case <-doneCh:
+				return
+			case <-tick.C:
+				ex.mu.Lock()
+				el := time.Since(t0).Seconds()
+				if cfg.Progress {
+					fmt.Fprintf(os.Stderr, "  [%s %.0fs] paths=%d completed=%d viol=%d queue=%d\n", name, el, ex.res.Paths, ex.res.PathsCompleted, len(ex.res.Violations), len(ex.work))
+				}
+				if cfg.MaxSeconds > 0 && el > float64(cfg.MaxSeconds) && !ex.stop {
+					ex.stop = true
+					ex.res.Inconclusive = append(ex.res.Inconclusive, fmt.Sprintf("time budget %ds reached", cfg.MaxSeconds))
+					ex.cond.Broadcast()
+				}
+				ex.mu.Unlock()
+			}
+		}
+	}()
 	wg.Wait()
+	close(doneCh)
 	res := ex.finish(t0, solvers)
 	for _, s := range solvers {
 		s.Close()
